@@ -9,7 +9,7 @@ Tracked places: locals / tuple fields of type Vec<Comment>; typestate Moved < Em
 Each is allowed only when dominated or post-dominated by an error report in the same body.
 """
 from ..core import RuleResult
-from ..cfg import cfg_of, single_def, def_sites
+from ..cfg import cfg_of, single_def, def_sites, reach_known_variants
 from ..dataflow import root_local
 from ..facts import callee, strip_refs
 from ..callgraph import iter_operands_rvalue
@@ -768,7 +768,7 @@ def run_comment_token_kept(prog, tier, repo):
                 n += 1
                 key = f'kept:{b.name}:{comment_variants[v]}'
                 # can the arm reach the next token request or the return without pushing a comment?
-                r = cfg._reach_from(tgt, set(pushes), set()) if tgt not in pushes else set()
+                r = reach_known_variants(b, tgt, pushes)
                 leak = [x for x in r if x in pumps or x in cfg.exits]
                 if leak:
                     res.violation(key, b.loc(t[4]), f'{b.name} receives a {comment_variants[v]} token from the lexer and there is a '
